@@ -314,6 +314,36 @@ theorem nonvacuous_history :
 /-- Tie to the source text (regenerated on every run): the implicit tag every document carries. -/
 theorem source_constants : Generated.const? "analytics.wildcardTag" = some "*" := by decide
 
+/-! ### round 8 (lean/CLAUSES_B.md, clause C18.9): from the history to the answer, in one statement -/
+
+/-- the specification's run of a history: entries `(name, document, tags)` in first-insertion order -/
+def specRun (ops : List (Op δ)) : Spec δ :=
+  ops.foldl (fun sp op => (specStep sp op).1) (abs (init : State δ))
+
+/-- For EVERY history of adds (any length, any names / tags / options, re-adds included) and every tag
+    list: TaggedSubset does not panic and its layer names are exactly the names of the specification's
+    entries carrying one of the tags, in first-insertion order; AsOne serves every entry; NamedDocument is
+    the specification's lookup.  (Composition of `inv_run`, `refines_run`, `tagged_names`, `asOne_all`,
+    `named_spec`: the per-state theorems above need `Inv s`, which no caller can check.) -/
+theorem tagged_names_run (ops : List (Op δ)) (ts : List String) :
+    (∃ ov, taggedSubset ts (run (init : State δ) ops) = .ok ov ∧
+      layerNames ov = ((specRun ops).entries.filter (fun e => containsAnyOf e.2.2 ts)).map (·.1)) ∧
+    asOne (run (init : State δ) ops) = .ok ((specRun ops).entries.map (fun e => (e.1, e.2.1))) ∧
+    ∀ n, namedDocument (run (init : State δ) ops) n = (specFind (specRun ops).entries n).map (·.2.1) := by
+  have hs := inv_run (δ := δ) ops
+  have hr : abs (run (init : State δ) ops) = specRun ops := refines_run ops
+  refine ⟨?_, ?_, ?_⟩
+  · rw [← hr]; exact tagged_names _ hs ts
+  · rw [← hr]; exact asOne_all _ hs
+  · intro n; rw [← hr]; exact named_spec _ hs n
+
+/-- on the history of `nonvacuous_history` the specification's run is what the property text says -/
+theorem nonvacuous_specRun :
+    (specRun exOps).entries.map (fun e => (e.1, e.2.1)) =
+      [("a", 3), ("b", 2), ("default__1", 6), ("default__2", 7)] ∧
+    ((specRun exOps).entries.filter (fun e => containsAnyOf e.2.2 ["t2", "t3"])).map (·.1) = ["a"] := by
+  decide
+
 end Ytk.C18
 
 /-! ## Translated functions (YtkModel/Generated/Funcs.lean, regenerated from the Go source on every
